@@ -822,3 +822,44 @@ def net_twoshut_checks(tier, binaries, log, variants, prop):
                 res.append((False, "real socket (%s): an exception escaped into the event loop" % h, cmdline, {}))
     res.append((True, "", "", {"real_socket_double_shutdown_runs": n}))
     return res
+
+
+def net_rstdisc_checks(tier, binaries, log, variants, prop):
+    """the peer RESETS its connection while the request handler is running (the reset is in the server's socket, unread);
+    the handler then turns the peer away with disconnect(): the connection must still be signalled as disconnected and
+    released (real tcp_adaptor / ssl_tcp_adaptor shutdown on a socket that is no longer connected)"""
+    import re
+    import subprocess
+    import vlib
+    res = []
+    n = 0
+    for h in variants:
+        try:
+            binary = binaries.get(h) or vlib.build_harness(h, log)
+        except vlib.BuildError as e:
+            res.append((False, "net_driver (%s) does not build against the current tree: %s" % (h, str(e)[-300:]), "build " + h, {}))
+            continue
+        for n_conn in ((3,) if tier == "quick" else (1, 3, 10)):
+            args = ["rstdisc", "n=%d" % n_conn]
+            cmdline = "%s %s" % (h, " ".join(args))
+            try:
+                r = subprocess.run([binary] + args, capture_output=True, text=True, timeout=180)
+            except subprocess.TimeoutExpired:
+                res.append((False, "net_driver %s hung" % " ".join(args), cmdline, {}))
+                continue
+            m = re.search(r"^RESULT (.*)$", r.stdout, re.M)
+            n += 1
+            if not m:
+                res.append((False, "abort: net_driver failed (exit status %d): %s" % (r.returncode, (r.stdout + r.stderr)[-300:]), cmdline, {}))
+                continue
+            kv = dict(x.split("=", 1) for x in m.group(1).split() if "=" in x)
+            if kv.get("errors") != "0" or kv.get("handled") != str(n_conn):
+                continue
+            if kv.get("connected") != kv.get("disconnected"):
+                res.append((False, "real socket (%s): %s connections were reset by their peers while the request handler ran and then "
+                            "disconnected by the handler; only %s were ever signalled as disconnected: the rest are retained" % (
+                                h, kv.get("connected"), kv.get("disconnected")), cmdline, {}))
+            elif kv.get("srv_exceptions") != "0":
+                res.append((False, "real socket (%s): an exception escaped into the event loop" % h, cmdline, {}))
+    res.append((True, "", "", {"real_socket_reset_then_disconnect_runs": n}))
+    return res
